@@ -41,6 +41,18 @@ Proof.
 Qed.
 Print Assumptions fm_last_write.
 
+(* every operation that goes through a const member function (size, empty, contains, and the const
+   overloads of at / at_index reached through a const FlatMap &) leaves the map unchanged, for all
+   maps and keys - in particular at() of an absent key throws and does NOT make the key present *)
+Theorem const_ops_do_not_modify : forall m o, fm_is_const o = true -> fst (fm_step m o) = m.
+Proof. exact fm_const_unchanged. Qed.
+Print Assumptions const_ops_do_not_modify.
+
+Theorem const_overloads_same_answer : forall m k i,
+  fm_step m (FAtC k) = fm_step m (FAt k) /\ fm_step m (FAtIndexC i) = fm_step m (FAtIndex i).
+Proof. exact fm_const_same_answer. Qed.
+Print Assumptions const_overloads_same_answer.
+
 (* ParameterizedObject: names unique in every reachable state *)
 Theorem po_nodup : forall ops, NoDup (map p_name (fst (po_run ops))).
 Proof. exact po_run_inv. Qed.
